@@ -11,9 +11,9 @@ Definition failure {A} (r : res A) : option (option err) :=
   match r with Ok _ => None | Err e => Some (Some e) | Panic => Some None end.
 
 Lemma select_t_failure root ps m buf :
-  failure (select_t root ps m buf) = failure (find_positions PATH_FUEL root None ps).
+  failure (select_t root ps m buf) = failure (find_positions root None ps).
 Proof.
-  unfold select_t. destruct (find_positions PATH_FUEL root None ps) as [items|e|]; cbn [bind failure]; try reflexivity.
+  unfold select_t. destruct (find_positions root None ps) as [items|e|]; cbn [bind failure]; try reflexivity.
   destruct (is_predicate ps); reflexivity.
 Qed.
 
@@ -43,7 +43,7 @@ Theorem exists_t_fails_with_select root ps m buf : is_predicate ps = false ->
   failure (exists_t root ps) = failure (select_t root ps m buf).
 Proof.
   intros Hp. rewrite select_t_failure. unfold exists_t. rewrite Hp.
-  destruct (find_positions PATH_FUEL root None ps); reflexivity.
+  destruct (find_positions root None ps); reflexivity.
 Qed.
 
 (* not vacuous: a filter whose expression is not a condition fails with the same error in every mode, at tree and byte
